@@ -58,6 +58,10 @@ type c20World struct {
 	byKey  map[string]*c20Type
 	byRT   map[reflect.Type]*c20Type
 	impls  map[reflect.Type][]*c20Type // interface type -> usable implementers (sorted by key)
+	// ptrOnly: registered by value although only *T implements the interface
+	// (the GnoVM AST nodes): such values can be encoded, but the decoders hand
+	// back a T, which is not assignable, so they can never be decoded.
+	ptrOnly map[reflect.Type][]*c20Type
 	ifaces []reflect.Type              // interface types reachable from registered types (sorted)
 }
 
@@ -89,7 +93,7 @@ func c20Key(rt reflect.Type) string {
 
 func c20GetWorld() *c20World {
 	c20Once.Do(func() {
-		w := &c20World{byKey: map[string]*c20Type{}, byRT: map[reflect.Type]*c20Type{}, impls: map[reflect.Type][]*c20Type{}}
+		w := &c20World{byKey: map[string]*c20Type{}, byRT: map[reflect.Type]*c20Type{}, impls: map[reflect.Type][]*c20Type{}, ptrOnly: map[reflect.Type][]*c20Type{}}
 		w.cdc = amino.NewCodec()
 		for _, p := range c20Packages {
 			w.cdc.RegisterPackage(p)
@@ -156,6 +160,8 @@ func c20GetWorld() *c20World {
 				// the decoder hands back exactly this form; it must be assignable.
 				if form.Implements(it) {
 					w.impls[it] = append(w.impls[it], t)
+				} else if !t.PtrPref && reflect.PointerTo(t.RT).Implements(it) {
+					w.ptrOnly[it] = append(w.ptrOnly[it], t)
 				}
 			}
 		}
@@ -174,6 +180,7 @@ type c20Gen struct {
 	// observations for the non-trivial rule
 	ifaceNonNil    bool
 	nestedRepeated bool
+	encodeOnly     bool // holds a pointer-only implementer: encodable, not decodable
 }
 
 const (
@@ -493,9 +500,17 @@ func (g *c20Gen) fill(rv reflect.Value, depth int, fopts amino.FieldOptions) {
 		g.fill(p.Elem(), depth, fopts)
 		rv.Set(p)
 	case reflect.Interface:
-		impls := g.w.impls[rt]
-		if exhausted || len(impls) == 0 || g.n(5) == 0 {
+		impls, ponly := g.w.impls[rt], g.w.ptrOnly[rt]
+		if exhausted || len(impls)+len(ponly) == 0 || g.n(5) == 0 {
 			return // nil interface
+		}
+		if len(ponly) > 0 && (len(impls) == 0 || g.n(4) == 0) {
+			t := ponly[g.n(len(ponly))]
+			p := reflect.New(t.RT)
+			g.fill(p.Elem(), depth, amino.FieldOptions{})
+			rv.Set(p)
+			g.ifaceNonNil, g.encodeOnly = true, true
+			return
 		}
 		t := impls[g.n(len(impls))]
 		p := reflect.New(t.RT)
